@@ -1,5 +1,353 @@
 package checks
 
-import "github.com/nuetzliches/hookaido/verifharness/vlib"
+import (
+	"encoding/json"
+	"fmt"
+	"os"
+	"path/filepath"
+	"sort"
+	"strings"
+	"time"
 
-func c14Admin(c *vlib.Ctx) {}
+	"github.com/nuetzliches/hookaido/internal/queue"
+	"github.com/nuetzliches/hookaido/verifharness/l2"
+	"github.com/nuetzliches/hookaido/verifharness/storecheck"
+	"github.com/nuetzliches/hookaido/verifharness/vlib"
+)
+
+const c14Cfg = `ingress { listen 127.0.0.1:0 }
+pull_api { listen 127.0.0.2:0
+ auth token raw:tok }
+admin_api { listen 127.0.0.3:0 }
+/r0 { queue { backend %[1]s }
+ pull { path /p0 } }
+/r1 { queue { backend %[1]s }
+ pull { path /p1 } }
+/r2 { queue { backend %[1]s }
+ pull { path /p2 } }
+`
+
+func c14Populate(r *vlib.Rand, st queue.Store, n int) {
+	for i := 0; i < n; i++ {
+		e := queue.Envelope{ID: fmt.Sprintf("a%03d", i), Route: vlib.Pick(r, stdRoutes), Target: "pull", Payload: []byte("x"),
+			ReceivedAt: time.Date(2026, 2, 1, 0, 0, i/3, 0, time.UTC)} // ties in groups of 3
+		switch r.Intn(5) {
+		case 0:
+			e.State, e.DeadReason = queue.StateDead, "seed"
+		case 1:
+			e.State = queue.StateCanceled
+		}
+		_ = st.Enqueue(e)
+	}
+	_, _ = st.Dequeue(queue.DequeueRequest{Batch: r.Range(1, n/4+1), LeaseTTL: time.Hour})
+}
+
+func snapStore(st queue.Store) vlib.Snapshot {
+	items, _ := vlib.ListAll(st)
+	s := vlib.Snapshot{}
+	for _, it := range items {
+		s[it.ID] = vlib.RowFromEnvelope(it, false)
+	}
+	return s
+}
+
+// c14Admin: the same selection oracle through the Admin HTTP endpoints (strict
+// JSON and the audit-reason requirement: a 400 changes nothing) and a sample
+// through the MCP tools on the SQLite file.
+func c14Admin(c *vlib.Ctx) {
+	dir := c.Scratch()
+	n := c.N(10, 200)
+	for ci := 0; ci < n; ci++ {
+		r := vlib.Derive(c.Seed, "C14admin", ci)
+		be := []string{"memory", "sqlite"}[ci%2]
+		a, err := l2.Start(dir, fmt.Sprintf(c14Cfg, be), nil, nil)
+		if err != nil {
+			c.Inconclusive("C14 admin config: " + err.Error())
+			return
+		}
+		c14Populate(r, a.Store, r.Range(20, 60))
+		for k := 0; k < 24; k++ {
+			before := snapStore(a.Store)
+			ids := before.IDs()
+			var kind storecheck.Kind
+			var target string
+			body := map[string]any{}
+			var filter *queue.MessageManageFilterRequest
+			var idList []string
+			switch r.Intn(8) {
+			case 0:
+				kind, target = storecheck.KCancel, "/messages/cancel"
+			case 1:
+				kind, target = storecheck.KRequeue, "/messages/requeue"
+			case 2:
+				kind, target = storecheck.KResume, "/messages/resume"
+			case 3:
+				kind, target = storecheck.KRequeueDead, "/dlq/requeue"
+			case 4:
+				kind, target = storecheck.KDeleteDead, "/dlq/delete"
+			case 5:
+				kind, target = storecheck.KCancelF, "/messages/cancel_by_filter"
+			case 6:
+				kind, target = storecheck.KRequeueF, "/messages/requeue_by_filter"
+			default:
+				kind, target = storecheck.KResumeF, "/messages/resume_by_filter"
+			}
+			byFilter := strings.HasSuffix(target, "_by_filter")
+			if byFilter {
+				filter = &queue.MessageManageFilterRequest{Route: vlib.Pick(r, stdRoutes), Limit: vlib.Pick(r, []int{0, 1, 2, 5, 100, 1000, 1001}), PreviewOnly: r.Chance(0.3)}
+				body["route"] = filter.Route
+				if filter.Limit != 0 {
+					body["limit"] = filter.Limit
+				}
+				if r.Chance(0.5) {
+					filter.State = vlib.Pick(r, vlib.AllStates)
+					body["state"] = string(filter.State)
+				}
+				if r.Chance(0.4) && len(ids) > 0 {
+					t := time.Unix(0, before[vlib.Pick(r, ids)].ReceivedAt).UTC()
+					filter.Before = t
+					body["before"] = t.Format(time.RFC3339Nano)
+				}
+				if filter.PreviewOnly {
+					body["preview_only"] = true
+				}
+			} else {
+				for j := 0; j < r.Range(1, 5); j++ {
+					if len(ids) > 0 && r.Chance(0.8) {
+						idList = append(idList, vlib.Pick(r, ids))
+					} else {
+						idList = append(idList, vlib.Pick(r, []string{"nope", " a001 ", "a999"}))
+					}
+				}
+				if r.Chance(0.2) {
+					idList = append(idList, idList[0])
+				}
+				body["ids"] = idList
+			}
+			raw, _ := json.Marshal(body)
+			bad := ""
+			hdr := map[string]string{"X-Hookaido-Audit-Reason": "verif"}
+			switch r.Intn(12) {
+			case 0:
+				bad, hdr = "missing_audit_reason", map[string]string{}
+			case 1:
+				bad, raw = "unknown_field", []byte(strings.Replace(string(raw), "{", `{"surprise":1,`, 1))
+			case 2:
+				bad, raw = "trailing_document", append(raw, []byte(` {}`)...)
+			case 3:
+				bad, raw = "malformed_json", raw[:len(raw)/2]
+			}
+			req := l2.JSONReq("POST", a.Compiled.AdminAPI.Prefix+target, raw, "")
+			for hk, hv := range hdr {
+				req.Header.Set(hk, hv)
+			}
+			resp := l2.Do(a.Admin, req)
+			after := snapStore(a.Store)
+			add, rem, chg := vlib.Diff(before, after)
+			c.Count("evaluations", 1)
+			c.Count("admin_mutation_calls", 1)
+			c.Distinct("nontrivial", fmt.Sprintf("admin:%s:%s:bad=%s:%d", be, kind, bad, resp.Status))
+			wit := map[string]any{"backend": be, "target": target, "body": string(raw), "status": resp.Status, "response": string(resp.Body[:minInt(200, len(resp.Body))])}
+			if bad != "" {
+				if resp.Status != 400 {
+					c.Violation(vlib.Signature{"class": "malformed_request_not_400", "bad": bad, "op": string(kind)}, fmt.Sprintf("%s with %s answered %d", target, bad, resp.Status), wit)
+				}
+				if len(add)+len(rem)+len(chg) > 0 {
+					c.Violation(vlib.Signature{"class": "rejected_request_changed_queue", "bad": bad, "op": string(kind)}, fmt.Sprintf("%s with %s changed the queue", target, bad), wit)
+				}
+				continue
+			}
+			if resp.Status == 400 && byFilter && filter.State != "" && !stateAllowed(kind, filter.State) {
+				// a state the operation is not defined for is refused outright: fine, as long as nothing changed
+				if len(add)+len(rem)+len(chg) > 0 {
+					c.Violation(vlib.Signature{"class": "rejected_request_changed_queue", "bad": "state_not_allowed", "op": string(kind)}, fmt.Sprintf("%s refused state %s but changed the queue", target, filter.State), wit)
+				}
+				continue
+			}
+			if resp.Status != 200 {
+				c.Violation(vlib.Signature{"class": "valid_mutation_refused", "op": string(kind), "status": fmt.Sprint(resp.Status)}, fmt.Sprintf("%s answered %d: %s", target, resp.Status, string(resp.Body)), wit)
+				continue
+			}
+			// independent selection
+			var sel []string
+			if byFilter {
+				sel = storecheck.SelectByFilter(before, *filter, kind)
+			} else {
+				seen := map[string]bool{}
+				for _, raw := range idList {
+					id := strings.TrimSpace(raw)
+					if id == "" || seen[id] {
+						continue
+					}
+					seen[id] = true
+					if row, ok := before[id]; ok && stateAllowed(kind, row.State) {
+						sel = append(sel, id)
+					}
+				}
+			}
+			var out struct {
+				Matched                              *int `json:"matched"`
+				Canceled, Requeued, Resumed, Deleted int
+				PreviewOnly                          bool `json:"preview_only"`
+			}
+			_ = json.Unmarshal(resp.Body, &out)
+			var generic map[string]any
+			_ = json.Unmarshal(resp.Body, &generic)
+			count := out.Canceled + out.Requeued + out.Resumed + out.Deleted
+			if v, ok := generic["deleted"].(float64); ok && count == 0 {
+				count = int(v)
+			}
+			preview := byFilter && filter.PreviewOnly
+			if byFilter && (out.Matched == nil || *out.Matched != len(sel)) {
+				c.Violation(vlib.Signature{"class": "matched_count", "backend": be, "op": string(kind), "preview": fmt.Sprint(preview)}, fmt.Sprintf("%s matched=%v, independent selection has %d", target, generic["matched"], len(sel)), wit)
+			}
+			wantChanged := sel
+			if preview {
+				wantChanged = nil
+			}
+			if count != len(wantChanged) {
+				c.Violation(vlib.Signature{"class": "changed_count", "backend": be, "op": string(kind)}, fmt.Sprintf("%s reported %d changed, independent selection has %d", target, count, len(wantChanged)), wit)
+			}
+			gotChanged := append(append([]string{}, chg...), rem...)
+			sort.Strings(gotChanged)
+			w := append([]string{}, wantChanged...)
+			sort.Strings(w)
+			if strings.Join(gotChanged, ",") != strings.Join(w, ",") || len(add) > 0 {
+				c.Violation(vlib.Signature{"class": "changed_set_differs", "backend": be, "op": string(kind)}, fmt.Sprintf("%s changed %v, independent selection says %v", target, gotChanged, w), wit)
+			}
+			for _, id := range chg {
+				want := queue.StateQueued
+				if kind == storecheck.KCancel || kind == storecheck.KCancelF {
+					want = queue.StateCanceled
+				}
+				if after[id].State != want {
+					c.Violation(vlib.Signature{"class": "wrong_result_state", "backend": be, "op": string(kind)}, fmt.Sprintf("%s left %s in state %s", target, id, after[id].State), wit)
+				}
+			}
+			if ci < 1 && k < 2 {
+				c.Sample(wit)
+			}
+		}
+		a.Close()
+	}
+	c14MCP(c)
+}
+
+func stateAllowed(k storecheck.Kind, s queue.State) bool {
+	switch k {
+	case storecheck.KCancel, storecheck.KCancelF:
+		return s == queue.StateQueued || s == queue.StateLeased || s == queue.StateDead
+	case storecheck.KRequeue, storecheck.KRequeueF:
+		return s == queue.StateDead || s == queue.StateCanceled
+	case storecheck.KResume, storecheck.KResumeF:
+		return s == queue.StateCanceled
+	case storecheck.KRequeueDead, storecheck.KDeleteDead:
+		return s == queue.StateDead
+	}
+	return false
+}
+
+// c14MCP: the MCP mutation tools on the SQLite file.
+func c14MCP(c *vlib.Ctx) {
+	root := c.Scratch()
+	if err := c20MakeTemplate(root); err != nil {
+		c.Inconclusive("C14 mcp template: " + err.Error())
+		return
+	}
+	n := c.N(12, 150)
+	for i := 0; i < n; i++ {
+		r := vlib.Derive(c.Seed, "C14mcp", i)
+		f, err := c20NewFixture(root, 900000+i)
+		if err != nil {
+			c.Inconclusive(err.Error())
+			return
+		}
+		// richer population than the C20 template
+		st, err := queue.NewSQLiteStore(f.DB, queue.WithSQLiteCheckpointInterval(0))
+		if err != nil {
+			c.Inconclusive(err.Error())
+			return
+		}
+		for k := 0; k < 30; k++ {
+			e := queue.Envelope{ID: fmt.Sprintf("x%02d", k), Route: "/hooks", Target: "pull", ReceivedAt: time.Date(2026, 2, 1, 0, 0, k/3, 0, time.UTC)}
+			switch r.Intn(4) {
+			case 0:
+				e.State, e.DeadReason = queue.StateDead, "s"
+			case 1:
+				e.State = queue.StateCanceled
+			}
+			_ = st.Enqueue(e)
+		}
+		before := snapStore(st)
+		_ = st.Close()
+		tool := vlib.Pick(r, []string{"messages_cancel", "messages_requeue", "messages_resume", "dlq_requeue", "dlq_delete", "messages_cancel_by_filter", "messages_requeue_by_filter", "messages_resume_by_filter"})
+		kind := map[string]storecheck.Kind{"messages_cancel": storecheck.KCancel, "messages_requeue": storecheck.KRequeue, "messages_resume": storecheck.KResume, "dlq_requeue": storecheck.KRequeueDead,
+			"dlq_delete": storecheck.KDeleteDead, "messages_cancel_by_filter": storecheck.KCancelF, "messages_requeue_by_filter": storecheck.KRequeueF, "messages_resume_by_filter": storecheck.KResumeF}[tool]
+		args := map[string]any{"reason": "verif"}
+		var sel []string
+		if strings.HasSuffix(tool, "_by_filter") {
+			fl := queue.MessageManageFilterRequest{Route: "/hooks", Limit: vlib.Pick(r, []int{1, 2, 5, 100})}
+			args["route"], args["limit"] = fl.Route, fl.Limit
+			if r.Bool() {
+				fl.State = vlib.Pick(r, vlib.AllStates)
+				args["state"] = string(fl.State)
+			}
+			if r.Chance(0.3) {
+				fl.PreviewOnly = true
+				args["preview_only"] = true
+			}
+			sel = storecheck.SelectByFilter(before, fl, kind)
+			if fl.PreviewOnly {
+				sel = nil
+			}
+		} else {
+			var ids []string
+			all := before.IDs()
+			for k := 0; k < r.Range(1, 4); k++ {
+				ids = append(ids, vlib.Pick(r, all))
+			}
+			args["ids"] = ids
+			seen := map[string]bool{}
+			for _, id := range ids {
+				if !seen[id] && stateAllowed(kind, before[id].State) {
+					sel = append(sel, id)
+				}
+				seen[id] = true
+			}
+		}
+		ro, _, err := c20Call(f, "admin", true, false, "alice", "tools/call", map[string]any{"name": tool, "arguments": args})
+		if err != nil {
+			c.Inconclusive("C14 mcp call: " + err.Error())
+			continue
+		}
+		st2, err := queue.NewSQLiteStore(f.DB, queue.WithSQLiteCheckpointInterval(0))
+		if err != nil {
+			c.Inconclusive(err.Error())
+			return
+		}
+		after := snapStore(st2)
+		_ = st2.Close()
+		_, rem, chg := vlib.Diff(before, after)
+		got := append(append([]string{}, chg...), rem...)
+		sort.Strings(got)
+		sort.Strings(sel)
+		c.Count("evaluations", 1)
+		c.Count("mcp_mutation_calls", 1)
+		c.Distinct("nontrivial", fmt.Sprintf("mcp:%s:selected%d", tool, minInt(len(sel), 5)))
+		text := ""
+		if len(ro.Result.Content) > 0 {
+			text = ro.Result.Content[0].Text
+		}
+		if ro.Result.IsError && strings.Contains(text, "invalid state") {
+			if len(got) > 0 {
+				c.Violation(vlib.Signature{"class": "rejected_request_changed_queue", "bad": "state_not_allowed", "op": tool}, "MCP "+tool+" refused the state but changed the queue", map[string]any{"args": args})
+			}
+		} else if ro.Result.IsError {
+			c.Violation(vlib.Signature{"class": "valid_mutation_refused", "op": tool, "status": "mcp_error"}, "MCP "+tool+" failed: "+text, map[string]any{"args": args})
+		} else if strings.Join(got, ",") != strings.Join(sel, ",") {
+			c.Violation(vlib.Signature{"class": "changed_set_differs", "backend": "sqlite-via-mcp", "op": tool}, fmt.Sprintf("MCP %s changed %v, independent selection says %v", tool, got, sel), map[string]any{"args": args, "response": text[:minInt(300, len(text))]})
+		}
+		_ = os.RemoveAll(f.Dir)
+	}
+	_ = os.Remove(filepath.Join(root, "template.db"))
+}
